@@ -1,6 +1,7 @@
 package main
 
 import (
+	"math/big"
 	"os"
 	"errors"
 	"fmt"
@@ -142,6 +143,19 @@ func runC10(cx *ctx) {
 		}
 		ws = append(ws, special...)
 		ws = append(ws, "20", "25", "30", "31")
+		// decimal strings that are congruent to an acceptable factor modulo 2^32 / 2^64 / 2^128 (a parser whose
+		// accumulator wraps would take them for it)
+		for _, v := range []int{1, max - 1, max} {
+			if v < 1 {
+				continue
+			}
+			for _, sh := range []uint{32, 64, 128} {
+				for _, k := range []int64{1, 2, 7} {
+					b := new(big.Int).Lsh(big.NewInt(k), sh)
+					ws = append(ws, b.Add(b, big.NewInt(int64(v))).String())
+				}
+			}
+		}
 		for _, w := range ws {
 			for _, right := range []bool{true, false} {
 				max, w, right := max, w, right
@@ -150,6 +164,11 @@ func runC10(cx *ctx) {
 					logN := 1 + rr.Intn(4)
 					if v := atoiSmall(w); v >= 1 && v <= 12 {
 						logN = v // make the stanza honest for this factor when it is small
+					} else if bw, ok := new(big.Int).SetString(w, 10); ok && bw.BitLen() > 31 {
+						// … and for what the string is modulo 2^32 (so that a wrapped parse would open it)
+						if v := int(new(big.Int).And(bw, big.NewInt(0xffffffff)).Int64()); v >= 1 && v <= 12 {
+							logN = v
+						}
 					}
 					p := newScrypt(rr, logN, max)
 					own, _ := p.rec.Wrap(rr.Bytes(16))
@@ -158,11 +177,32 @@ func runC10(cx *ctx) {
 						id, d := scryptIdentity([]byte("wrong passphrase"), max)
 						p = &party{kind: "s", id: id, idD: d, label: "scrypt"}
 					}
-					return scryptUnwrapCase("workfactor", p, own, fmt.Sprintf("max=%d w=%q right=%v", max, w, right), false)
+					c := scryptUnwrapCase("workfactor", p, own, fmt.Sprintf("max=%d w=%q right=%v", max, w, right), false)
+					// the property itself, evaluated without the model: a factor that is not a canonical decimal
+					// (^[1-9][0-9]*$, read as an unbounded integer) or exceeds the maximum must be REJECTED OUTRIGHT, i.e. the
+					// answer is an error other than "incorrect identity" (which would mean a key was derived and tried)
+					if c.Oracle == "" && !canonicalWithin(w, max) && c.Impl != "fatal" {
+						c.Oracle = fmt.Sprintf("work factor %q (maximum %d) was not rejected outright: %s", w, max, c.Impl)
+					}
+					return c
 				})
 			}
 		}
 	}
+}
+
+// canonicalWithin: w matches ^[1-9][0-9]*$ and its value, as an unbounded integer, is at most max
+func canonicalWithin(w string, max int) bool {
+	if w == "" || w[0] < '1' || w[0] > '9' {
+		return false
+	}
+	for i := 0; i < len(w); i++ {
+		if w[i] < '0' || w[i] > '9' {
+			return false
+		}
+	}
+	v, ok := new(big.Int).SetString(w, 10)
+	return ok && v.Cmp(big.NewInt(int64(max))) <= 0
 }
 
 func atoiSmall(s string) int {
